@@ -2,8 +2,10 @@ package checks
 
 import (
 	"fmt"
+	textwire "github.com/textwire/textwire/v2"
 	"math"
 	"math/rand"
+	"os"
 	"reflect"
 	"regexp"
 	"strings"
@@ -52,7 +54,18 @@ type c12Wide struct {
 	pvt float64
 }
 
+// defined types whose underlying type is a string-keyed map, a string (as map key) and a slice
+type c12Lang string
+type c12Dict map[string]any
+type c12Tags []string
+
 var sharedChan = make(chan int)
+
+// top-level names of the data map: identifiers and names no template can spell
+var c12TopKeys = []string{"v", "v", "v", "page-title", "user.name", "2nd", "", "naïve", "in", "x y", "V", "_"}
+
+// templates that do not refer to the data at all
+var c12BlindTemplates = []string{"ok", "", " ", "\n", "{{-- c --}}", "{{ 1 }}", "@if(false)x@end"}
 
 var identRe = regexp.MustCompile(`^[A-Za-z_][A-Za-z0-9_]*$`)
 
@@ -247,7 +260,20 @@ func (g *valueGen) value(depth int) genValue {
 		gv.goVal = out
 		gv.unsupported = containsUnsupported(out)
 		return gv
-	case 5: // typed maps
+	case 5: // typed maps, also of defined map, key and slice types
+		switch r.Intn(5) {
+		case 0:
+			m := map[c12Lang]string{"en": "hello", "De": "hallo"}
+			return genValue{goVal: m, view: model.Obj(map[string]model.Value{"en": model.Str("hello"), "De": model.Str("hallo")})}
+		case 1:
+			e := g.value(depth - 1)
+			m := c12Dict{"k": e.goVal, "n": 1}
+			return genValue{goVal: m, unsupported: e.unsupported, view: model.Obj(map[string]model.Value{"k": e.view, "n": model.Int(1)})}
+		case 2:
+			e := g.value(depth - 1)
+			m := map[c12Lang]any{"first": c12Tags{"a", "b"}, "second": e.goVal}
+			return genValue{goVal: m, unsupported: e.unsupported, view: model.Obj(map[string]model.Value{"first": model.Arr(model.Str("a"), model.Str("b")), "second": e.view})}
+		}
 		if r.Intn(2) == 0 {
 			m := map[string]int{"one": 1, "Two": 2}
 			return genValue{goVal: m, view: model.Obj(map[string]model.Value{"one": model.Int(1), "Two": model.Int(2)})}
@@ -517,13 +543,35 @@ func init() {
 					}
 					if gv.unsupported {
 						c.Count("values_with_unsupported_kind", 1)
-						c.Input(map[string]any{"source": "ok", "data": desc})
-						got := evalString(c, "ok", data)
-						c.Nontrivial("unsupported:" + desc)
+						// under any top-level name, with any template: the call must fail
+						key := c12TopKeys[c.Rng.Intn(len(c12TopKeys))]
+						src := c12BlindTemplates[c.Rng.Intn(len(c12BlindTemplates))]
+						bad := map[string]any{key: gv.goVal, "other": 1}
+						c.Input(map[string]any{"source": src, "data": desc, "top_level_name": key})
+						got := evalString(c, src, bad)
+						c.Nontrivial("unsupported:" + key + "|" + src + "|" + desc)
 						if !got.Failed() {
-							c.Violation("unsupported-accepted", "a value of an unsupported kind inside the data was accepted", map[string]any{"data": desc})
+							c.Violation("unsupported-accepted", fmt.Sprintf("a value of an unsupported kind under the top-level name %q was accepted by the template %q", key, src), map[string]any{"data": desc})
+						}
+						// the same through a file
+						if i%4 == 0 {
+							if err := os.WriteFile("c12blind.tw", []byte(src), 0o644); err == nil {
+								var ferr error
+								c.Eval(1)
+								if !c.Guard(func() { _, ferr = textwire.EvaluateFile("c12blind.tw", bad) }) && ferr == nil {
+									c.Violation("unsupported-accepted", fmt.Sprintf("EvaluateFile accepted a value of an unsupported kind under the top-level name %q (file content %q)", key, src), map[string]any{"data": desc})
+								}
+								os.Remove("c12blind.tw")
+							}
 						}
 						return
+					}
+					// a supported value under a name no template can spell changes nothing
+					if i%8 == 0 {
+						key := c12TopKeys[3+c.Rng.Intn(len(c12TopKeys)-3)]
+						if got := evalString(c, "ok{{ other }}", map[string]any{key: gv.goVal, "other": 1}); !got.Panicked && (got.Err != nil || got.Out != "ok1") {
+							c.Violation("unreachable-name-rejected", fmt.Sprintf("a supported value under the top-level name %q gave %s", key, got.Describe()), map[string]any{"data": desc})
+						}
 					}
 					paths := pathsInto(c.Rng, "v", gv.view, gv.hiddenNames)
 					if len(paths) > 24 {
